@@ -11,7 +11,8 @@ from ..oracle import mesh as M
 ID = "C02"
 RULE = (
     "Random and enumerated operation histories on Av (count, of_length, up_to_length, first, enumeration, `in`, "
-    "is_subclass, clear_cache, other classes, new handles from equal bases, iterators opened early and drained "
+    "is_subclass, clear_cache, other classes, new handles from equal bases, queries aborted by an exception injected at a "
+    "random statement of the class's code (sys.monitoring failpoints), iterators opened early and drained "
     "after later operations / after clear_cache). Every result is compared with brute-force avoiders of the RAW "
     "basis (classical: definitional containment; mesh: cell geometry); monitors on every Av query method compare "
     "each call (also the internal ones) with the avoiders of self.basis, and a hook on Av._ensure_level checks "
@@ -25,11 +26,12 @@ ASSUMPTIONS = [
 REQUIRED = [
     "calls.Av.count", "calls.Av.of_length", "calls.Av.up_to_length", "calls.Av.first", "calls.Av.enumeration",
     "calls.Av.__contains__", "calls.Av.is_subclass", "calls.Av._ensure_level", "hook.levels_checked",
-    "op.clear", "op.iter_resumed", "op.rehandle", "histories.mesh", "histories.classical", "subclass.true", "subclass.false",
+    "op.clear", "op.iter_resumed", "op.rehandle", "faults.injected", "histories.mesh", "histories.classical", "subclass.true", "subclass.false",
 ]
 MIN_NONTRIVIAL = 100
 CTX = None
 MON = None
+FAULTS = None
 NMAX = {"c": 7, "m": 6}
 CASE = [None]
 RAW_OF = {}  # id(Av) -> raw plain basis used to build it (for the K5 classifier)
@@ -65,8 +67,17 @@ def want_level(av, n):
     return avmodel.levels(raw, n)[n], raw
 
 
+def aborted(exc):
+    if isinstance(exc, monitor.InjectedFault):
+        CTX.count("faults.aborted_operations")
+        return True
+    return False
+
+
 def post_count(args, kwargs, res, exc):
     av, n = args[0], args[1]
+    if aborted(exc):
+        return
     want, raw = want_level(av, n)
     if want is None:
         return
@@ -77,6 +88,8 @@ def post_count(args, kwargs, res, exc):
 
 def done_of_length(args, kwargs, items, exhausted, exc):
     av, n = args[0], args[1]
+    if aborted(exc):
+        return
     want, raw = want_level(av, n)
     if want is None:
         return
@@ -130,6 +143,8 @@ def check_lenordered(av, got, raw, upto=None, count=None, exhausted=True, label=
 
 def done_up_to(args, kwargs, items, exhausted, exc):
     av, n = args[0], args[1]
+    if aborted(exc):
+        return
     raw = plain_basis(av.basis)
     if n > nmax_for(raw):
         CTX.count("oracle_skipped")
@@ -143,6 +158,8 @@ def done_up_to(args, kwargs, items, exhausted, exc):
 
 def done_first(args, kwargs, items, exhausted, exc):
     av, k = args[0], args[1]
+    if aborted(exc):
+        return
     raw = plain_basis(av.basis)
     got = [tuple(p) for p in items]
     if got and len(got[-1]) > nmax_for(raw):
@@ -157,6 +174,8 @@ def done_first(args, kwargs, items, exhausted, exc):
 
 def post_enum(args, kwargs, res, exc):
     av, n = args[0], args[1]
+    if aborted(exc):
+        return
     raw = plain_basis(av.basis)
     if n > nmax_for(raw):
         return
@@ -168,6 +187,8 @@ def post_enum(args, kwargs, res, exc):
 
 def post_contains(args, kwargs, res, exc):
     av, other = args[0], args[1]
+    if aborted(exc):
+        return
     raw = plain_basis(av.basis)
     CTX.ev()
     if not isinstance(other, Perm):
@@ -184,6 +205,8 @@ def post_contains(args, kwargs, res, exc):
 
 def post_subclass(args, kwargs, res, exc):
     av, other = args[0], args[1]
+    if aborted(exc):
+        return
     a, b = plain_basis(av.basis), plain_basis(other.basis)
     CTX.ev()
     mesh_involved = not (avmodel.is_classical(a) and avmodel.is_classical(b))
@@ -249,9 +272,12 @@ def setup(ctx):
     m.wrap(Av, "__contains__", post_contains)
     m.wrap(Av, "is_subclass", post_subclass)
     m.wrap(Av, "_ensure_level", post_ensure)
+    global FAULTS
+    FAULTS = monitor.FaultInjector(monitor.class_code_objects(Av, "permset.py"))
 
 
 def teardown(ctx):
+    FAULTS.close()
     MON.uninstall()
 
 
@@ -367,6 +393,25 @@ def run_ops(ctx, raw_enc, ops):
             av().is_subclass(other)
             other.is_subclass(av())
             av().is_subclass(av())
+        elif kind == "fault":
+            # a query aborted by an exception arriving at the k-th statement of the class's code (crash point);
+            # whatever state it leaves behind, every later answer must still be right
+            _, what, arg, k = op
+            FAULTS.arm(k)
+            try:
+                if what == "count":
+                    av().count(arg)
+                elif what == "of_length":
+                    list(av().of_length(arg))
+                elif what == "up_to":
+                    list(av().up_to_length(arg))
+                elif what == "in":
+                    Perm(arg) in av()
+                ctx.count("faults.not_reached")
+            except monitor.InjectedFault:
+                ctx.count("faults.injected")
+            finally:
+                FAULTS.disarm()
         elif kind == "clear":
             Av.clear_cache()
             ctx.count("op.clear")
@@ -466,32 +511,36 @@ def rand_mesh(rng, kmax=3):
 def rand_ops(rng, raw_plain, N, nops):
     ops = []
     other_pool = [[[0, 1, 2]], [[0, 2, 1]], [[1, 0]], [[0, 1]], [[2, 1, 0], [0, 1, 2, 3]], [[1, 3, 0, 2], [2, 0, 3, 1]], [[0]]]
-    for _ in range(nops):
-        c = rng.random()
+    kinds = ["count", "of_length", "up_to", "first", "enum", "in", "in_other", "fault", "clear", "rehandle", "old_handle", "other", "iter_open", "iter_adv"]
+    weights = [16, 14, 6, 8, 5, 11, 2, 6, 5, 4, 2, 5, 11, 11]
+    for kind in rng.choices(kinds, weights, k=nops):
         n = rng.choice([0, 1, 2, N, N - 1, rng.randint(0, N)])
-        if c < 0.16:
-            ops.append(["count", n])
-        elif c < 0.30:
-            ops.append(["of_length", n])
-        elif c < 0.36:
+        if kind in ("count", "of_length"):
+            ops.append([kind, n])
+        elif kind == "up_to":
             ops.append(["up_to", rng.randint(0, N - 1)])
-        elif c < 0.44:
+        elif kind == "first":
             ops.append(["first", rng.choice([0, 1, 2, 5, 17, 60, 400])])
-        elif c < 0.49:
+        elif kind == "enum":
             ops.append(["enum", rng.randint(0, N)])
-        elif c < 0.60:
+        elif kind == "in":
             ops.append(["in", rand_perm(rng, rng.choice([N, N, N - 1, rng.randint(0, N)]))])
-        elif c < 0.62:
+        elif kind == "in_other":
             ops.append(["in_other", rand_perm(rng, 3)])
-        elif c < 0.67:
+        elif kind == "fault":
+            what = rng.choice(["count", "count", "of_length", "up_to", "in"])
+            arg = rand_perm(rng, rng.choice([N, N - 1])) if what == "in" else rng.choice([N, N, N - 1, rng.randint(1, N)])
+            ops.append(["fault", what, arg, rng.choice([1, 2, 3, 5, 8, 13, 21, 34, 55, 89, 144, 233, 377, 610, 987, rng.randint(1, 3000)])])
+            ops.append(["count", rng.randint(0, N)])
+        elif kind == "clear":
             ops.append(["clear"])
-        elif c < 0.71:
+        elif kind == "rehandle":
             ops.append(["rehandle", rng.randrange(4)])
-        elif c < 0.73:
+        elif kind == "old_handle":
             ops.append(["old_handle", rng.randrange(5)])
-        elif c < 0.78:
+        elif kind == "other":
             ops.append(["other", rng.choice(other_pool), rng.randint(0, N)])
-        elif c < 0.89:
+        elif kind == "iter_open":
             what = rng.choice(["of_length", "up_to", "first"])
             arg = rng.randint(0, N) if what == "of_length" else rng.randint(0, N - 1) if what == "up_to" else rng.choice([3, 10, 50, 200])
             ops.append(["iter_open", what, arg])
